@@ -564,6 +564,11 @@ def verify(spec, registry=None, max_paths=400, only_clauses=None, only_cfg=None)
                 env_all = {**env, **ghost}
                 for r in deferred:
                     ctx.assume(eval_spec(I, r, env_all, mod))
+                for dk, dexpr in enumerate(spec.get("derived", [])):
+                    # consequences of `requires` stated to help the solver: proved first, then assumed
+                    dg = eval_spec(I, dexpr, env_all, mod)
+                    ctx.oblige(f"{base}/derived[{dk}]", dg, {"lemma": True})
+                    ctx.assume(dg)
                 hints = []
                 for h in spec.get("refute_hints", []):
                     try:
@@ -670,6 +675,20 @@ def verify(spec, registry=None, max_paths=400, only_clauses=None, only_cfg=None)
             out["obligations"] += pool.map(_solve_vc, range(len(vcs)), chunksize=1)
     else:
         out["obligations"] += [_solve_vc(i) for i in range(len(vcs))]
+    # verdicts must not flip because all cores were busy: undecided VCs get a second, serial attempt with a longer budget
+    base_len = len(out["obligations"]) - len(vcs)
+    for i in range(len(vcs)):
+        ob = out["obligations"][base_len + i]
+        if ob.get("status") == "undecided" and "UNSUPPORTED" not in str(ob.get("reason")):
+            old_t = smt.Z3_TIMEOUT_MS
+            smt.Z3_TIMEOUT_MS = old_t * 3
+            try:
+                ob2 = _solve_vc(i)
+            finally:
+                smt.Z3_TIMEOUT_MS = old_t
+            if ob2.get("status") != "undecided":
+                ob2["backend"] = str(ob2.get("backend")) + "(serial retry)"
+                out["obligations"][base_len + i] = ob2
     out["time_s"] = time.time() - t0
     return out
 
